@@ -1,6 +1,7 @@
 package statedb
 
 import (
+	"bytes"
 	"fmt"
 	"math/big"
 	"sort"
@@ -436,6 +437,31 @@ func (s *StateDB) RevertToSnapshot(revid int) {
 	// Replay the journal to undo changes and remove invalidated snapshots
 	s.journal.Revert(s, snapshot)
 	s.validRevisions = s.validRevisions[:idx]
+}
+
+// SyncBalances reloads the cached native coin balance of every live state object from the
+// keeper. Stateful precompiles move coins directly in the sdk.Context (after having flushed
+// the StateDB with Commit); without this, the stale cached balance of an account that is
+// dirty for any other reason (value received or sent, nonce, storage) would overwrite the
+// Cosmos-side credit or debit when the StateDB is committed at the end of the transaction,
+// minting or burning the difference.
+func (s *StateDB) SyncBalances() {
+	addrs := make([]common.Address, 0, len(s.stateObjects))
+	for addr := range s.stateObjects {
+		addrs = append(addrs, addr)
+	}
+	sort.Slice(addrs, func(i, j int) bool {
+		return bytes.Compare(addrs[i].Bytes(), addrs[j].Bytes()) < 0
+	})
+	for _, addr := range addrs {
+		obj := s.stateObjects[addr]
+		if obj.suicided {
+			continue
+		}
+		if account := s.keeper.GetAccount(s.ctx, addr); account != nil && account.Balance != nil {
+			obj.account.Balance = account.Balance
+		}
+	}
 }
 
 // Commit writes the dirty states to keeper
